@@ -9,7 +9,7 @@ BASELINE_OFF = ("cd /repo && cargo nextest run --workspace --no-fail-fast --tool
                 "--profile pb --test-threads 8 --offline || (cd /repo && cargo test --workspace --no-fail-fast --offline)")
 
 LOCAL = ("Contract-based deductive verification of the real functions (Kani/CBMC on /repo's working tree, "
-         "contract modules spliced append-only). The LOCAL obligations listed in DESIGN.md are proved for all states; "
+         "contract modules spliced append-only). The LOCAL obligations listed in DESIGN.md (plan: section 5; as built: section 11.4) are discharged for all symbolic states of the harness shapes; what is bounded (thread count per harness, path depth, queue length, live stores) is labelled bounded in the evidence and not counted as unbounded proof; "
          "the global step from local obligations to the program-level statement is an explicit assumption in the evidence.")
 P = {
  "C01": ("local DPOR obligations: dependence soundness, covering last-access summary, backtrack insertion, DFS enumeration", "§5 C01"),
